@@ -44,3 +44,62 @@ package node
 //@   loop 1 invariant forall k in 0..len(np.Nodes) :: np.Nodes[k] == old(np.Nodes[k])
 //@   loop 1 invariant forall k in 0..len(np.Nodes) :: np.Nodes[k] != nil
 //@   loop 1 invariant forall k in 0..len(np.Nodes) :: forall j in k+1..len(np.Nodes) :: np.Nodes[k].ID != np.Nodes[j].ID
+
+// ---------------------------------------------------------------- replicating sharders (C42)
+// scoresDesc: a score list ordered by score, highest first (what ScoreHash returns).
+//@ spec scoresDesc(s []*Score) bool = forall i in 0..len(s) :: (forall j in i..len(s) :: s[i].Score >= s[j].Score)
+//@ spec scoresOK(s []*Score) bool = forall i in 0..len(s) :: s[i] != nil
+
+// ScoreHash scores every node of the pool against the hash (one entry per pool node, in the pool's
+// order before sorting) and sorts by score, highest first, ties by HIGHER position index first; the
+// comparator handed to sort.SliceStable is proved to compute exactly that order, which depends on the
+// scores and the nodes' position indices only (never on the order the nodes were added in).
+//@ iface 0chain.net/core/encryption.HashScorer.Score
+//@   params self hash1 hash2
+//@   pure
+//@ func (*Pool).CopyNodes
+//@   trusted
+//@   ensures forall i in 0..len(result) :: result[i] != nil
+//@   modifies nothing
+//@ func (*HashPoolScorer).ScoreHash
+//@   prop C42
+//@   requires hps != nil && np != nil
+//@   sorted[by-score-then-position] nodes by $a.Score > $b.Score || ($a.Score == $b.Score && $a.Node.SetIndex > $b.Node.SetIndex)
+//@   ensures[ordered-by-score] scoresOK(result) && scoresDesc(result)
+//@   loop 1 header "for idx, nd := range npNodes"
+//@   loop 1 invariant len(nodes) == len(npNodes) && (forall k in 0..$idx+1 :: nodes[k] != nil && nodes[k].Node == npNodes[k])
+
+// IsInTop: with a list ordered by score and topN >= 1, a node is "in the top N" exactly if it is
+// listed with a score at least the N-th best score - so at least N nodes qualify whenever N nodes
+// exist, and nobody qualifies when fewer than N exist.
+//@ func (*Node).IsInTop
+//@   prop C42
+//@   requires topN >= 1 && scoresOK(nodeScores) && scoresDesc(nodeScores)
+//@   ensures[fewer-than-n-nobody] topN > len(nodeScores) ==> !result
+//@   ensures[in-top-implies-listed-at-least-nth-score] topN <= len(nodeScores) && result ==> exists i in 0..len(nodeScores) :: nodeScores[i].Node == n && nodeScores[i].Score >= nodeScores[topN-1].Score
+//@   ensures[listed-with-nth-score-implies-in-top] topN <= len(nodeScores) ==> forall i in 0..len(nodeScores) :: nodeScores[i].Node == n && nodeScores[i].Score >= nodeScores[topN-1].Score ==> result
+//@   modifies nothing
+//@   loop 1 header "for _, ns := range nodeScores"
+//@   loop 1 invariant forall k in 0..$idx+1 :: nodeScores[k].Score >= minScore && nodeScores[k].Node != n
+
+// GetTopNNodes: the first min(topN, len) nodes of the list, in order.
+//@ func GetTopNNodes
+//@   prop C42
+//@   requires scoresOK(scores) && topN >= 0
+//@   ensures[first-n-in-order] len(nodes) == min(topN, len(scores)) && forall k in 0..len(nodes) :: nodes[k] == scores[k].Node
+//@   loop 1 invariant 0 <= i && i <= n && len(nodes) == i && cap(nodes) >= n && (forall k in 0..i :: nodes[k] == scores[k].Node)
+
+// IsInTopWithNodes: the replicator list is exactly the prefix of the ordered list that scores at least
+// the N-th best score (at least N nodes when N exist; the first node left out scores strictly less),
+// and a node that is in that list is reported in the top (the converse needs an existential witness and is
+// not proved).
+//@ func (*Node).IsInTopWithNodes
+//@   prop C42
+//@   requires topN >= 1 && scoresOK(nodeScores) && scoresDesc(nodeScores)
+//@   ensures[fewer-than-n-nobody] topN > len(nodeScores) ==> !result0 && len(result1) == 0
+//@   ensures[replicators-are-the-top-scorers] topN <= len(nodeScores) ==> len(result1) >= topN && len(result1) <= len(nodeScores) && (forall k in 0..len(result1) :: result1[k] == nodeScores[k].Node && nodeScores[k].Score >= nodeScores[topN-1].Score)
+//@   ensures[first-left-out-scores-less] topN <= len(nodeScores) && len(result1) < len(nodeScores) ==> nodeScores[len(result1)].Score < nodeScores[topN-1].Score
+//@   ensures[replicator-implies-in-top] topN <= len(nodeScores) ==> forall k in 0..len(result1) :: result1[k] == n ==> result0
+//@   loop 1 header "for _, ns := range nodeScores"
+//@   loop 1 invariant len(nodes) == $idx + 1 && (forall k in 0..$idx+1 :: nodes[k] == nodeScores[k].Node && nodeScores[k].Score >= minScore)
+//@   loop 1 invariant forall k in 0..$idx+1 :: nodeScores[k].Node == n ==> inTop
